@@ -138,13 +138,30 @@ def rule_I2(ctx, rule: str = "I2") -> None:
     ec = mods.func("EnumDefinitionCompiler.__post_init__")
     ctx.analysed("EnumDefinitionCompiler.__post_init__")
     guard = None
+    weak_guard = None
     for n in ast.walk(ec):
         if isinstance(n, ast.Compare) and any(isinstance(x, ast.Call) and ast.unparse(x.func) == "len" for x in [n.left] + n.comparators):
             txt = ast.unparse(n)
             if "set(" in txt or "{" in txt or "Counter" in txt:
-                guard = n
+                # what is made distinct: the member *names* ({e.name for ..} / set(e.name for ..) / set(names)), not whole
+                # entries (an entry also carries number and comment: equal names with different numbers stay "distinct")
+                over_names = False
+                for x in ast.walk(n):
+                    if isinstance(x, (ast.SetComp, ast.GeneratorExp, ast.ListComp)) and isinstance(x.elt, ast.Attribute) and x.elt.attr in ("name", "py_name"):
+                        over_names = True
+                    if isinstance(x, ast.Call) and ast.unparse(x.func) in ("set", "Counter", "collections.Counter", "frozenset") and x.args and isinstance(x.args[0], ast.Name) and "name" in x.args[0].id.lower():
+                        over_names = True
+                if over_names:
+                    guard = n
+                else:
+                    weak_guard = n
     if n_cut == 0 or guard is not None:
         ctx.proved(rule, "EnumDefinitionCompiler:distinct-members", mods.loc(ec), "names are compared for distinctness" if guard is not None else "names are never shortened")
+    elif weak_guard is not None:
+        ctx.refuted(rule, "EnumDefinitionCompiler:distinct-members", "distinct-entries-not-names", mods.loc(weak_guard),
+                    f"the distinctness check `{ast.unparse(weak_guard)}` compares whole entries (name, number, comment), not the member names: two values whose shortened names collide "
+                    "but whose numbers differ pass it, the class body assigns the name twice and one number of the schema has no member",
+                    "message Holder { enum State { HOLDER_STATE_UNKNOWN = 0; IDLE = 1; HOLDER_STATE_IDLE = 3; } }")
     else:
         ctx.refuted(rule, "EnumDefinitionCompiler:distinct-members", "no-distinctness-check", mods.loc(ec),
                     "member names are shortened (prefix removal) but never checked for distinctness: FOO_A and A of enum Foo become the same member and one number disappears",
